@@ -93,6 +93,9 @@ def run(rep, tier, rng):
         forms.append((("seq", ks), [usable[a] for a in ks]))
         forms.append((("seq", ks), tuple(usable[a] for a in ks)))
         forms.append((("seq", ks), {usable[a]: None for a in ks}.keys()))          # any iterable of keys, e.g. a dict view
+        # one-shot iterables: a generator expression, iter(list) (made afresh for every memory that is built)
+        forms.append((("seq", ks), lambda ks=ks: (usable[a] for a in ks)))
+        forms.append((("seq", ks), lambda ks=ks: iter([usable[a] for a in ks])))
         if not hetero:
             rk = ks + ks[:1] + ks[-1:]                     # a key sequence listing keys more than once
             forms.append((("seq", rk), [usable[a] for a in rk]))
@@ -109,7 +112,7 @@ def run(rep, tier, rng):
                 def build():
                     with spa.Network(seed=1) as net:
                         net.config[nengo.Ensemble].neuron_type = nengo.Direct()
-                        am = cls(input_vocab=vin, output_vocab=vout if hetero else None, mapping=marg, **kw)
+                        am = cls(input_vocab=vin, output_vocab=vout if hetero else None, mapping=marg() if callable(marg) else marg, **kw)
                     return net, am
                 with warnings.catch_warnings():
                     warnings.simplefilter("ignore")
@@ -117,7 +120,8 @@ def run(rep, tier, rng):
                 # by-key uses the vocabulary's own keys (the first nbase entries of usable)
                 ink = inkeys[:nbase] if mform == "by-key" else inkeys
                 outk = outkeys[:nbase] if mform == "by-key" else outkeys
-                base = {"class": cname, "d_in": d_in, "d_out": d_out, "hetero": hetero, "mapping": repr(marg)[:120]}
+                base = {"class": cname, "d_in": d_in, "d_out": d_out, "hetero": hetero,
+                        "mapping": (f"one-shot iterable over {[usable[a] for a in mform[1]]}" if callable(marg) else repr(marg))[:120]}
                 if o[0] == "ok":
                     K, V = transforms_of(o[1][1])
                     obs = f"(AmOk {algs.enc_mat(K)} {algs.enc_mat(V)})"
@@ -127,7 +131,7 @@ def run(rep, tier, rng):
                 add(f"check_am {c.b(hetero)} {c.lst([c.zlist(v) for v in ink])} {c.lst([c.zlist(v) for v in outk])} {mapping_term(mform)} "
                     f"(1%Z, 1000000000%Z) {obs}",
                     dict(base, op="transforms-pair-keys-with-outputs" if o[0] == "ok" else "mapping-rejected"),
-                    ("am", cname, d_in, d_out, repr(marg), tuple(map(tuple, inkeys))), nontrivial=o[0] != "ok" or len(K) >= 2,
+                    ("am", cname, d_in, d_out, base["mapping"], tuple(map(tuple, inkeys))), nontrivial=o[0] != "ok" or len(K) >= 2,
                     sample=dict(base, input_transform=K.tolist(), output_transform=V.tolist()) if o[0] == "ok" and hetero and len(K) == 3 and cname == "WTAAssocMem" else None)
                 if o[0] != "ok" or cname != "ThresholdingAssocMem" or not isinstance(mform, tuple) or mform[0] != "dict":
                     continue
@@ -247,6 +251,9 @@ def run(rep, tier, rng):
             if nkeys >= 2:
                 inputs["mixture-1.0-0.6"] = [SC * a + 6 * b_ for a, b_ in zip(keyv[0], keyv[1])]
                 inputs["mixture-0.6-1.0"] = [6 * a + SC * b_ for a, b_ in zip(keyv[0], keyv[1])]
+            if nkeys >= 2:
+                # history (accumulator memory only): key 0 latched, a pulse on input_reset, then the clean key 1
+                inputs["after-reset-pulse:clean-second-key"] = [SC * v for v in keyv[1]]
             variants = list(CLASSES.items())
             # non-default strength of the lateral inhibition: a clean key still yields its paired output at its own strength
             variants += [("WTAAssocMem inhibit_scale=2.0", (spa.WTAAssocMem, {"threshold": 0.3, "inhibit_scale": 2.0})),
@@ -261,6 +268,8 @@ def run(rep, tier, rng):
                         continue
                     if cname == "IAAssocMem" and iname == "below-threshold":
                         continue        # accumulators integrate any positive evidence: not claimed
+                    if iname.startswith("after-reset-pulse") and cname != "IAAssocMem":
+                        continue
                     if cname == "ThresholdingAssocMem" and iname.startswith("mixture") and theta10 >= 6:
                         continue
                     for seed in seeds:
@@ -271,11 +280,17 @@ def run(rep, tier, rng):
                                     am = cls(input_vocab=voc, mapping=marg, **kw)
                                     if with_default:
                                         am.add_default_output("DEF", 0.3)
-                                    inp = nengo.Node(np.array(x10, float) / SC)
+                                    if iname.startswith("after-reset-pulse"):
+                                        first, second = np.array(keyv[0], float), np.array(x10, float) / SC
+                                        inp = nengo.Node(lambda t: first if t < 0.25 else (np.zeros(d) if t < 0.4 else second))
+                                        rst = nengo.Node(lambda t: 1.0 if 0.25 <= t < 0.35 else 0.0)
+                                        nengo.Connection(rst, am.input_reset, synapse=None)
+                                    else:
+                                        inp = nengo.Node(np.array(x10, float) / SC)
                                     nengo.Connection(inp, am.input, synapse=None)
                                     p = nengo.Probe(am.output, synapse=0.02)
                                 with nengo.Simulator(net, progress_bar=False) as s:
-                                    s.run(0.5)
+                                    s.run(0.9 if iname.startswith("after-reset-pulse") else 0.5)
                                 return s.data[p][-1]
                             with warnings.catch_warnings():
                                 warnings.simplefilter("ignore")
